@@ -123,8 +123,8 @@ Fixpoint run (L : lattice) (st : cstate) (ops : list op) : cstate * list value :
   end.
 
 (* the history-free meaning of each attribute: a function of the lattice alone *)
-Definition pure_value (L : lattice) (o : op) : value :=
-  match compute_plaquettes L with
+Definition pure_value_of (cp : option (plaq_value * list ep_row * vtable)) (o : op) : value :=
+  match cp with
   | None => VRaise
   | Some (p, et, vt) =>
     match o with
@@ -134,3 +134,4 @@ Definition pure_value (L : lattice) (o : op) : value :=
     | GetVertexAdj => VVert vt
     end
   end.
+Definition pure_value (L : lattice) (o : op) : value := pure_value_of (compute_plaquettes L) o.
